@@ -62,6 +62,7 @@ prop(
         "taking unlimited / 1 / 7 bytes per call and, at the edge, either the part that still fits or nothing; once full the sink fails every write for good. Oracle: write_xml may "
         "return Ok only if the complete document (byte-identical to what the same value wrote into a Vec and parsed back) arrived; an error with the complete document is left open. "
         "Each write is one evaluation; signature (kind, child count, kind of last child, length class)."
+        "Attribute values of valid documents re-spelled with character references (same character; characters of 2-4 octets in place of as many ASCII characters at every offset), raw non-ASCII and stray entities through both parser doors of each file kind (panic-freedom; what a same-character reference does is recorded). The delta-chain check is repeated after histories of 1-4 calls of sort_deltas / reverse_sort_deltas / sort_and_verify_deltas(None) / clone on the same value, the model re-read from deltas() after the history. "
     ),
     assumptions=[
         "the per-element limits are the two numbers exported by hook H2 (rpki::rrdp::VERIF_LIMITS); header limit applies to every element of a notification file and to the root element of snapshot/delta files, file limit to the children and content of snapshot/delta files (as configured by the calls to start_with_limit / take_opt_element_with_limit)",
